@@ -105,11 +105,12 @@ def check(ctx: Ctx, col: Collector, tier: str) -> None:
             good = bool(outs) and all(
                 (named_ok(o) and not any(k.startswith("isinstance(<expr.node>") and v for k, v in o.facts))
                 or (o.kind == "return" and isinstance(o.value, Obj) and o.value.cls == "sds.UnknownType" and any(k.startswith("isinstance(<expr.node>") and "Var" in k and v for k, v in o.facts))
-                for o in outs) and any(named_ok(o) for o in outs)
+                for o in outs) and any(named_ok(o) for o in outs) and any(isinstance(o.value, Obj) and o.value.cls == "sds.UnknownType" for o in outs)
         else:
             good = len(outs) == 1 and named_ok(outs[0])
         (col.ok if good else col.bad)("C07.INFER-TABLE", key, repo.loc(HELPERS, efi.node), f"{[(o.kind, repr(o.value)) for o in outs]}",
-                                      *([] if good else [f"returned name {nm} is not inferred as {want[0]}"]))
+                                      *([] if good else [f"returned name {nm} is not inferred as {want[0]}" if nm != "x" else
+                                                         "a returned variable (`x = a; return x`) is inferred as a class named like the variable instead of an unknown type"]))
     outs = ctx.interp(efi).run_function(efi, {ep: Sym("expr", "TupleExpr")})
     key = f"{HELPERS}::mypy_expression_to_sds_type::TupleExpr"
     good = len(outs) == 1 and isinstance(outs[0].value, Obj) and outs[0].value.cls == "sds.TupleType" and any(
